@@ -532,6 +532,24 @@ func eddsaCase(n, thr int) harness.Case {
 			}
 			c.Outcome(fmt.Sprintf("eddsa|mismatch|%d|%d", n, thr))
 		}
+		{
+			signers := parties[:thr+1]
+			buf := append([]byte(nil), digestAlphabet[0]...)
+			_, e1, _ := runAdapters("eddsa", signers, thr, shares, func(id uint16, a adapter, ctx context.Context) ([]byte, error) { return a.Sign(ctx, buf) }, "signing", 900*time.Second)
+			copy(buf, digestAlphabet[3])
+			sigs2, e2, _ := runAdapters("eddsa", signers, thr, shares, func(id uint16, a adapter, ctx context.Context) ([]byte, error) { return a.Sign(ctx, buf) }, "signing", 900*time.Second)
+			c.Add("executions", 2)
+			pkA := newAdapter("eddsa", signers[0])
+			pkA.SetShareData(shares[signers[0]])
+			pk, _ := pkA.ThresholdPK()
+			for _, id := range signers {
+				c.Add("evaluations", 1)
+				if e1[id] == nil && e2[id] == nil && !ed25519.Verify(ed25519.PublicKey(pk), digestAlphabet[3], sigs2[id]) {
+					c.Violation("signature-for-requested-digest", "c19-eddsa-signature-not-for-requested-digest:reused-buffer", fmt.Sprintf("%s: two sessions were handed the same digest buffer, refilled in between; the signature party %d returned in the second does not verify for the second digest", what, id), replay{"eddsa", n, thr, "sign"})
+				}
+			}
+			c.Outcome(fmt.Sprintf("eddsa|reused-buffer|%d|%d", n, thr))
+		}
 		classify(c, "eddsa", n, thr, caps)
 		senderBinding(c, "eddsa", n, thr, caps)
 		classBinding(c, "eddsa", n, thr, caps)
@@ -778,6 +796,32 @@ func ecdsaCase(n, thr int) harness.Case {
 				}
 			}
 			c.Outcome(fmt.Sprintf("ecdsa|sign|%d|%d|%d", n, thr, di))
+		}
+		if n == 3 && thr == 1 {
+			// the caller re-uses its digest buffer: two sessions in a row are handed the same slice,
+			// refilled in between; the second signature is for what the buffer holds then
+			buf := append([]byte(nil), ecDigests[0]...)
+			_, e1, _ := runAdapters("ecdsa", signers, thr, shares, func(id uint16, a adapter, ctx context.Context) ([]byte, error) { return a.Sign(ctx, buf) }, "signing", 1800*time.Second)
+			copy(buf, ecDigests[1])
+			sigs2, e2, _ := runAdapters("ecdsa", signers, thr, shares, func(id uint16, a adapter, ctx context.Context) ([]byte, error) { return a.Sign(ctx, buf) }, "signing", 1800*time.Second)
+			c.Add("executions", 2)
+			pkA := newAdapter("ecdsa", signers[0])
+			pkA.SetShareData(shares[signers[0]])
+			if raw, err := pkA.ThresholdPK(); err == nil {
+				if pub, err := x509.ParsePKIXPublicKey(raw); err == nil {
+					for _, id := range signers {
+						c.Add("evaluations", 1)
+						if e1[id] != nil || e2[id] != nil {
+							continue
+						}
+						if !ecdsa.VerifyASN1(pub.(*ecdsa.PublicKey), ecDigests[1], sigs2[id]) {
+							first := ecdsa.VerifyASN1(pub.(*ecdsa.PublicKey), ecDigests[0], sigs2[id])
+							c.Violation("signature-for-requested-digest", "c19-ecdsa-signature-not-for-requested-digest:reused-buffer", fmt.Sprintf("%s: two sessions were handed the same digest buffer, refilled in between; the signature party %d returned in the second does not verify for the second digest (verifies for the first: %v)", what, id, first), replay{"ecdsa", n, thr, "sign"})
+						}
+					}
+				}
+			}
+			c.Outcome(fmt.Sprintf("ecdsa|reused-buffer|%d|%d", n, thr))
 		}
 		c.Sample("ecdsa", map[string]interface{}{"n": n, "t": thr, "captured_messages": len(caps)})
 	}}
